@@ -70,6 +70,14 @@ theorem hcm_batch_eq_single (law : Law) (hl : SignPreserving law) (L : List Int)
       ((twoPassR law (L.map fun l => [cs.getD k 1 * l])).recs.map (proj 0)) :=
   C05L.twoPass_sim law hl cs hc k hk L
 
+/-- The running strain extremes (kept per assessment point) of every point of a batch with
+proportional load histories are those the point gets alone (repaired variant `twoPassR`). -/
+theorem hcm_batch_eq_single_LF (law : Law) (hl : SignPreserving law) (L : List Int) (cs : List Int)
+    (hc : ∀ c ∈ cs, 0 < c) (k : Nat) (hk : k < cs.length) :
+    ((twoPassR law (L.map fun l => cs.map (· * l))).recs.map (projLF k)) =
+      ((twoPassR law (L.map fun l => [cs.getD k 1 * l])).recs.map (projLF 0)) :=
+  C05L.twoPass_simLF law hl cs hc k hk L
+
 /-! ### non-vacuity -/
 
 /-- the two stub laws of the correspondence check are sign preserving -/
